@@ -21,7 +21,8 @@ CLAIM = ("Decides: ionic strength accumulates b*z**2 and halves it, the neutrali
          "and a closeness test against zero; A is dimensionless and B is 1/length in the hard-coded and the constants path; the hard-coded "
          "factors equal the textbook expressions evaluated with CODATA (1e-4); the constants-path expressions have the textbook monomial "
          "normal form and agree with the hard-coded path on every shared exponent; limiting/extended/Davies share -A z^2 sqrt(I/I0) and "
-         "the extended denominator is 1 + B a sqrt(I/I0); activity products weight their namesake log-gamma and exponentiate.")
+         "the extended denominator is 1 + B a sqrt(I/I0); activity products weight their namesake log-gamma and exponentiate."
+         ' Davies bracket and defaults, `one = x**0`, I0 default, net-charge accumulation. Shared rule A1: no swapped same-named arguments at resolved in-package call sites.')
 DOES_NOT_DECIDE = "numeric agreement of the two paths over the (T, eps, rho) domain beyond the constant factor; permutation invariance (follows from commutativity of +)"
 ASSUMPTIONS = ["CODATA 2018 values", "`quantities` unit/constant tables (typing environment)"]
 F1 = Fraction(1)
